@@ -70,6 +70,14 @@ CHECKS = [
          text="Every envelope of the bounded value space (tables of size 0..2, every index in {-2,-1,0,1,2,MaxInt32}, unknown type names, undecodable payloads, 1..2 messages) is decoded by the model and by the real reader; the real reader must not panic, must deliver exactly the prefix of messages whose own indices are valid (to Targets[ti] with TypeNames[tni]) and must end the stream with an error exactly when the model does.",
          note="quantifies over Envelope values, not raw byte strings (robustness of the generated UnmarshalVT against arbitrary bytes is not claimed); the dRPC server is replaced by an in-memory stream, so 'the node exits' is observed as a panic escaping Receive",
          ref="4/C16"),
+    dict(id="C18", engine="cluster-scenario", technique="TLC exhaustive on ClusterAgent.tla (membership mode) + B-scenario: edge cover of the state graph replayed on a real Agent, API-visible state compared after every step",
+         text="Every pair (current view, next snapshot) over the node itself plus three further members with different kind sets, with and without duplicated entries, in sequences of up to 3 (quick) / 4 (thorough) snapshots is enumerated by TLC, which checks 'view = snapshot', 'one join event per new member, one leave event per dropped member, none for the others' (action property) and 'HasKind(k) iff a member of the view advertises k'; each edge is executed on a real Agent (snapshots sent as *Members to the agent PID) and Members(), HasKind() for every kind and the join / leave events seen by a subscribed monitor must equal TLC's.",
+         note="a member id keeps its kind set and host; every snapshot contains the observing node (as every provider guarantees)",
+         ref="4/C18"),
+    dict(id="C19", engine="cluster-scenario", technique="TLC exhaustive on ClusterAgent.tla (activation mode: all arrival orders of the notifications of each operation) + B-scenario replay on an in-memory multi-node cluster of real engines and agents",
+         text="Operations activate / deactivate / cluster-spawn / join / leave are issued at quiescence on 2..3 nodes with different kind sets and scripted select functions; TLC explores every interleaving of the resulting agent-to-agent deliveries (FIFO per link) and checks agreement of all members at quiescence with what is alive, uniqueness of an id across the cluster and placement on a capable member; an edge cover of the graph is replayed on real engines / agents connected by a capturing Remoter, and after every step Members, HasKind, GetActiveByID, Registry.GetPID and the cluster events of every member are compared with TLC's state, as is the value Activate returned. Regression configs (no purge on leave, no topology to a joiner, no duplicate check) must fail in TLC.",
+         note="quiescent histories only (as the property states); the copy of a broadcast an agent sends to itself is handled within the operation; a node that left does not rejoin; the ActivationRequest round trip is atomic (the agent blocks on it)",
+         ref="4/C19"),
 ]
 
 NOT_YET = {
@@ -114,6 +122,8 @@ def main():
              "kind_free_text": "operation sequences of EventStream.tla replayed on a real engine with recording subscribers (B-scenario)"},
             {"name": "reqresp-scenario", "path": "harness/cmd/reqscen", "serves_properties": ["C11"],
              "kind_free_text": "request/response histories of ReqResp.tla replayed on a real engine (B-scenario) + deadline-race stress"},
+            {"name": "cluster-scenario", "path": "harness/cmd/clusterscen", "serves_properties": ["C18", "C19"],
+             "kind_free_text": "behaviours of ClusterAgent.tla replayed on an in-memory cluster of real engines and agents (B-scenario)"},
             {"name": "wire-table", "path": "harness/cmd/wiretable", "serves_properties": ["C15", "C16"],
              "kind_free_text": "cases enumerated by TLC from Wire.tla executed on the real stream writer / reader (B-table)"},
             {"name": "ring-table", "path": "harness/cmd/ringtable", "serves_properties": ["C14"],
